@@ -217,7 +217,11 @@ class C13(Property):
         mult = 10 if deep else 1
         for _ in range(6000 * mult):
             lens = self.rand_lens(rng)
-            yield {"kind": "refine", "lens": lens, "nb": rng.random() < 0.5, "hits": self.rand_hits(rng, lens),
+            hits = self.rand_hits(rng, lens)
+            if rng.random() < 0.1:
+                pa, pb = rng.sample(range(len(NAMES)), 2)
+                hits = self.split_fragment(rng, lens, pa, pb, rng.choice([0, 7])) + hits[:2]
+            yield {"kind": "refine", "lens": lens, "nb": rng.random() < 0.5, "hits": hits,
                    "pseed": rng.randrange(1 << 30)}
         for _ in range(3000 * mult):
             lens = self.rand_lens(rng)
@@ -432,6 +436,23 @@ class C13(Property):
         return {"kind": "runhmmer", "cut": cut, "min": min_score, "maxev": max_ev, "raw": raw,
                 "filter": rng.random() < 0.8, "pseed": rng.randrange(1 << 30)}
 
+    @staticmethod
+    def split_fragment(rng: random.Random, lens: List[int], pa: int, pb: int, base: int) -> List[List[int]]:
+        """profile A complete at `base`, a better hit of profile B after it, a weak fragment of A underneath B,
+        all within 1.5 profile lengths of A's start (what separates neighbour mode from the generic mode)"""
+        la, lb = lens[pa], lens[pb]
+        a_len = rng.choice([la // 2 + 1, (2 * la) // 3 + 1])
+        a1 = [pa, base, base + a_len, rng.choice([1, 2]), 30]
+        b_start = a1[2] + rng.choice([0, 1, la // 10])
+        b_len = max(lb // 2 + 1, min(lb, la // 2))
+        b1 = [pb, b_start, b_start + b_len, 1, rng.choice([30, 40, 50])]
+        f_len = max(1, min(la // 5, b_len - 2))
+        f_start = b_start + rng.choice([1, 2, max(1, (b_len - f_len) // 2)])
+        a2 = [pa, f_start, min(f_start + f_len, base + (3 * la) // 2 - 1), rng.choice([2, 3]), rng.choice([10, 20])]
+        if a2[2] <= a2[1]:
+            a2[2] = a2[1] + 1
+        return [a1, b1, a2]
+
     def rand_domains(self, rng: random.Random) -> Dict[str, Any]:
         lens = [rng.choice(self.LENS) for _ in DOCK_NAMES]
         genes, lengths = [], []
@@ -447,6 +468,11 @@ class C13(Property):
                 h[1] = rng.choice([48, 49, 50, 51])
                 h[2] = h[1] + ln
                 lengths[-1] = max(lengths[-1], h[2] + rng.choice([49, 50, 51]))
+            if rng.random() < 0.3:
+                pa, pb = rng.sample(range(len(DOCK_NAMES)), 2)
+                extra = self.split_fragment(rng, lens, pa, pb, rng.choice([0, 60]))
+                hits = extra + [h for h in hits if rng.random() < 0.3]
+                lengths[-1] = max(lengths[-1], max(h[2] for h in hits) + 1)
             genes.append(hits)
         return {"kind": "domains", "lens": lens, "genes": genes, "L": lengths, "pseed": rng.randrange(1 << 30)}
 
@@ -471,6 +497,13 @@ class C13(Property):
                     start = rng.randrange(0, 200)
                 ln = rng.choice([1, lens[p] // 2 + 1, lens[p], 2 * lens[p]])
                 raw.append([p, start, start + max(1, ln), rng.choice(self.EVS), rng.choice(self.SCORES)])
+            if rng.random() < 0.35:
+                pa, pb = rng.sample(range(len(SUB_NAMES)), 2)
+                base = doms[0][1] if doms else 0
+                frag = self.split_fragment(rng, lens, pa, pb, base)
+                raw = frag + [h for h in raw if rng.random() < 0.3]
+                if not doms or rng.random() < 0.7:
+                    doms = [[target, base, max(h[2] for h in frag) + 5, 1, 300]] + doms[1:]
             existing.append(doms)
             genes.append(raw)
         return {"kind": "subtypes", "lens": lens, "target": target, "callback": rng.random() < 0.6,
@@ -1024,11 +1057,13 @@ class C13(Property):
         elif kind == "refinerec":
             line.update({"lens": case["lens"], "reg": REG, "nb": case["nb"], "raw": case["raw"], "ngenes": case["ngenes"]})
         elif kind == "domains":
-            line.update({"lens": case["lens"], "names": DOCK_NAMES, "L": case["L"], "genes": case["genes"]})
+            line.update({"lens": case["lens"], "names": DOCK_NAMES, "L": case["L"], "genes": case["genes"],
+                         "impl_doms": obs.get("doms", []), "impl_motifs": obs.get("motifs", [])})
         elif kind == "subtypes":
             line.update({"lens": case["lens"], "target": case["target"],
                          "strip": SUB_STRIP if case["callback"] else list(range(len(SUB_NAMES))),
-                         "existing": case["existing"], "genes": case["genes"]})
+                         "existing": case["existing"], "genes": case["genes"],
+                         "impl_internal": obs.get("internal", [])})
         return line
 
     def judge(self, case: Dict[str, Any], obs: Dict[str, Any], drv: Optional[Dict[str, Any]]) -> Judgement:
@@ -1058,6 +1093,9 @@ class C13(Property):
         if obs["perm_bad"] is not None:
             spec_ok = False
             detail = f"order dependence: base {obs['out']} vs enumeration {obs['perm_bad']}"
+        elif not drv["kept"]:
+            spec_ok = False
+            detail = f"neighbour mode lost a complete raw hit that no raw hit scoring at least as high collides with: {obs['out']}"
         elif not (spec["sorted"] and spec["prov"] and drv["global"]):
             spec_ok = False
             detail = f"spec on implementation output {obs['out']}: {spec} global-margin={drv['global']}"
@@ -1237,6 +1275,9 @@ class C13(Property):
         spec_ok, detail = True, ""
         if obs["perm_bad"] is not None:
             spec_ok, detail = False, f"order dependence: {obs['doms']} vs {obs['perm_bad']}"
+        if spec_ok and not drv["kept"]:
+            spec_ok, detail = False, (f"a complete raw hit that no raw hit scoring at least as high collides with is not "
+                                      f"inside any returned hit of its profile: domains {obs['doms']} motifs {obs['motifs']}")
         if not corr and not detail:
             detail = f"model {drv['model']} / {drv['motifs']} vs implementation {obs['doms']} / {obs['motifs']}"
         return Judgement(corr, spec_ok, nontrivial=bool(drv["nontrivial"]), tags=("domains",), detail=detail)
@@ -1252,6 +1293,9 @@ class C13(Property):
             for d, hits in zip(targets, obs["internal"][g]):
                 if any(not (d[2] > h[1] and h[2] > d[1]) for h in hits):
                     spec_ok, detail = False, f"sub-type hit outside its domain {d}: {hits}"
+        if spec_ok and not drv["kept"]:
+            spec_ok, detail = False, (f"a complete sub-type hit overlapping a target domain, with no rival scoring at least "
+                                      f"as high, is not attached to the domain: {obs['internal']}")
         if not corr and not detail:
             detail = f"model {drv['model']} / {drv['internal']} vs implementation {obs['out']} / {obs['internal']}"
         return Judgement(corr, spec_ok, nontrivial=bool(drv["nontrivial"]),
